@@ -90,6 +90,9 @@ func C14(x *Ctx) []Violation {
 	if x.Case.HasLabel("alias:other-pkg-name") || x.Case.HasLabel("import:sanitise-equal-triple") || x.Case.HasLabel("alias:differs-between-files") {
 		k += 3 // order-dependent conflict resolution shows in a fraction of the processes only
 	}
+	if x.Case.HasLabel("alias:other-pkg-name") {
+		k += 4 // an alias equal to another package's name: the order of two renames decides (about 1 process in 8)
+	}
 	for i := 0; i < k; i++ {
 		saved := x.Env.Extra
 		if i == 0 {
